@@ -26,6 +26,9 @@ pub enum Ev {
     /// the read-only calls of the public API (fdt_xml_data, is_added, nb_objects, nb_transfers,
     /// get_objects_in_fdt): they must not change what the sender does next
     Query,
+    /// add_object of a copy of catalogue object 0 that the sender must refuse: 0 = priority without a queue,
+    /// 1 = an OTI the block encoder cannot encode (Reed-Solomon without parity symbols). A refusal leaves no trace
+    AddRefused(u8),
 }
 
 #[derive(Clone, Debug, PartialEq)]
@@ -208,6 +211,23 @@ impl SendSys {
                     let _ = self.sender.nb_transfers(t);
                 }
                 self.log.push(Item::Api(ev.clone(), format!("xml={} n={} in_fdt={} added={}", xml > 0, n, inf, added)));
+            }
+            Ev::AddRefused(kind) => {
+                let mut o = self.catalog[0].clone();
+                o.location = format!("{}.refused{}", o.location, kind);
+                if *kind == 0 {
+                    o.prio = 7777;
+                } else {
+                    o.oti = Some(OtiSpec::new(Scheme::Rs28, 8, 2, 0, true));
+                }
+                let res = match o.desc(None) {
+                    Ok(d) => match self.sender.add_object(o.prio, d) {
+                        Ok(t) => format!("ACCEPTED toi={}", t),
+                        Err(e) => format!("err={}", e.0),
+                    },
+                    Err(e) => format!("desc-err={}", e),
+                };
+                self.log.push(Item::Api(ev.clone(), res));
             }
             Ev::Trigger(k, t) => {
                 let r = match self.toi_of[*k] {
